@@ -149,7 +149,7 @@ impl CrcAlg {
 #[macro_export]
 macro_rules! hcap {
     ($cap:expr, $B:ident => $body:expr) => {
-        $crate::hcap!(@go $cap, $B => $body, [0, 1, 2, 3, 4, 5, 6, 7, 8, 9, 10, 11, 12, 13, 14, 15, 16, 17, 18, 19, 20, 21, 22, 23, 24, 25, 26, 27, 28, 29, 30, 31, 32, 33, 34, 35, 36, 37, 38, 39, 40, 41, 42, 43, 44, 45, 46, 47, 48, 49, 50, 51, 52, 53, 54, 55, 56, 57, 58, 59, 60, 61, 62, 63, 64, 65, 66, 67, 68, 69, 70, 71, 72, 127, 128, 129, 130, 255, 256, 257, 258, 259, 260, 300, 512, 513, 1024])
+        $crate::hcap!(@go $cap, $B => $body, [0, 1, 2, 3, 4, 5, 6, 7, 8, 9, 10, 11, 12, 13, 14, 15, 16, 17, 18, 19, 20, 21, 22, 23, 24, 25, 26, 27, 28, 29, 30, 31, 32, 33, 34, 35, 36, 37, 38, 39, 40, 41, 42, 43, 44, 45, 46, 47, 48, 49, 50, 51, 52, 53, 54, 55, 56, 57, 58, 59, 60, 61, 62, 63, 64, 65, 66, 67, 68, 69, 70, 71, 72, 127, 128, 129, 130, 249, 250, 251, 252, 253, 254, 255, 256, 257, 258, 259, 260, 261, 262, 300, 504, 505, 506, 507, 508, 509, 510, 511, 512, 513, 514, 515, 1024])
     };
     (@go $cap:expr, $B:ident => $body:expr, [$($n:literal),*]) => {
         match $cap {
